@@ -24,40 +24,40 @@ def families(prop: str, tier: str, seed: int) -> Dict[str, List[gen.Spec]]:
     q = tier == "quick"
     fam: Dict[str, List[gen.Spec]] = {}
     if prop in ("C01", "C03"):
-        fam["edge"] = (gen.family_T_random(seed, 16 if q else 400, min_states=3, max_states=5 if q else 6)
-                       + gen.family_H(seed + 1, 3 if q else 120)
-                       + gen.family_D(seed + 2, 3 if q else 120)
-                       + gen.family_F(seed + 4, 8 if q else 150)
-                       + gen.family_S(seed + 5, 20 if q else 150))
-        fam["walk"] = gen.family_T_random(seed + 3, 8 if q else 150, min_states=8, max_states=14, density=0.35)
+        fam["edge"] = (gen.family_T_random(seed, 16 if q else 100, min_states=3, max_states=5 if q else 6)
+                       + gen.family_H(seed + 1, 3 if q else 30)
+                       + gen.family_D(seed + 2, 3 if q else 30)
+                       + gen.family_F(seed + 4, 8 if q else 37)
+                       + gen.family_S(seed + 5, 20 if q else 37))
+        fam["walk"] = gen.family_T_random(seed + 3, 8 if q else 37, min_states=8, max_states=14, density=0.35)
     elif prop == "C10":
-        fam["edge"] = (gen.family_D(seed, 14 if q else 200)
-                       + gen.family_R(seed + 1, 30 if q else 400)
-                       + gen.family_T_random(seed + 2, 8 if q else 100, min_states=3, max_states=5))
-        fam["walk"] = gen.family_D(seed + 3, 6 if q else 60) + gen.family_R(seed + 4, 6 if q else 60)
+        fam["edge"] = (gen.family_D(seed, 14 if q else 50)
+                       + gen.family_R(seed + 1, 30 if q else 100)
+                       + gen.family_T_random(seed + 2, 8 if q else 25, min_states=3, max_states=5))
+        fam["walk"] = gen.family_D(seed + 3, 6 if q else 20) + gen.family_R(seed + 4, 6 if q else 20)
     elif prop == "C11":
-        fam["edge"] = (gen.family_H(seed, 6 if q else 250)
-                       + gen.family_T_random(seed + 2, 10 if q else 150, min_states=4, max_states=6))
-        fam["walk"] = gen.family_H(seed + 3, 8 if q else 80, density=0.6)
+        fam["edge"] = (gen.family_H(seed, 6 if q else 62)
+                       + gen.family_T_random(seed + 2, 10 if q else 37, min_states=4, max_states=6))
+        fam["walk"] = gen.family_H(seed + 3, 8 if q else 20, density=0.6)
     elif prop == "C07":
-        fam["edge"] = (gen.family_T_random(seed, 6 if q else 200, min_states=3, max_states=5, double=True)
-                       + gen.family_R(seed + 1, 6 if q else 200)
-                       + gen.family_F(seed + 2, 6 if q else 200)
-                       + gen.family_S(seed + 3, 4 if q else 150))
-        fam["walk"] = gen.family_F(seed + 4, 6 if q else 60)
+        fam["edge"] = (gen.family_T_random(seed, 6 if q else 50, min_states=3, max_states=5, double=True)
+                       + gen.family_R(seed + 1, 6 if q else 50)
+                       + gen.family_F(seed + 2, 6 if q else 50)
+                       + gen.family_S(seed + 3, 4 if q else 37))
+        fam["walk"] = gen.family_F(seed + 4, 6 if q else 20)
     elif prop == "C13":
-        fam["edge"] = gen.family_A(seed, 48 if q else 400) + gen.family_R(seed + 1, 10 if q else 200)
-        fam["walk"] = gen.family_A(seed + 3, 8 if q else 80)
+        fam["edge"] = gen.family_A(seed, 48 if q else 100) + gen.family_R(seed + 1, 10 if q else 50)
+        fam["walk"] = gen.family_A(seed + 3, 8 if q else 20)
     elif prop == "C20":
-        fam["edge"] = gen.family_E(seed, 60 if q else 1500)
-        fam["walk"] = gen.family_E(seed + 3, 6 if q else 60)
+        fam["edge"] = gen.family_E(seed, 60 if q else 375)
+        fam["walk"] = gen.family_E(seed + 3, 6 if q else 20)
     elif prop == "C06":
-        fam["edge"] = gen.family_G(seed, 14 if q else 800, depth=1 if q else 2) + gen.family_G(seed + 1, 4 if q else 400, depth=2)
-        fam["walk"] = gen.family_G(seed + 3, 6 if q else 60)
+        fam["edge"] = gen.family_G(seed, 14 if q else 200, depth=1 if q else 2) + gen.family_G(seed + 1, 4 if q else 100, depth=2)
+        fam["walk"] = gen.family_G(seed + 3, 6 if q else 20)
     elif prop == "C02":
-        fam["edge"] = (gen.family_S(seed, 40 if q else 500)
-                       + gen.family_T_random(seed + 1, 10 if q else 100, min_states=3, max_states=5))
-        fam["walk"] = gen.family_S(seed + 3, 12 if q else 120, big=True)
+        fam["edge"] = (gen.family_S(seed, 40 if q else 125)
+                       + gen.family_T_random(seed + 1, 10 if q else 25, min_states=3, max_states=5))
+        fam["walk"] = gen.family_S(seed + 3, 12 if q else 30, big=True)
     return fam
 
 
@@ -147,7 +147,7 @@ def run(prop: str, tier: str, seed: int) -> int:
         for i, sh in enumerate(shard(fam["walk"], 2 if q else 6)):
             units.append({"specs": sh, "engine": eng, "props": [prop], "seed": seed + 17 * i, "gvals": gvals,
                           "with_can": prop == "C02" and eng != "pure", "mc": False, "tlc_workers": 2,
-                          "walks": (len(sh) * (2 if q else 4), 25 if q else 60)})
+                          "walks": (len(sh) * (2 if q else 4), 25 if q else 20)})
     results = run_units(units, NPROC)
     violations: List[dict] = []
     errors: List[str] = []
